@@ -427,6 +427,33 @@ fn main() {
       }
       print!("{}", out);
     }
+    Some("numtext") => {
+      // numtext <file>: BOUNDED stand-in for C07. Lines:
+      //   `N <text>`   FeelNumber::from_str(text) -> `display | json | readback` (readback: from_str(display) == the number), or INVALID
+      //   `L <digits[.digits]>`  the text as a FEEL literal through parse + evaluate -> the value in the library's reduced scientific form
+      //   `X <kind> <text>`  Value::try_from_xsd_<kind>(text) (kind: integer / decimal / double) -> the same form, or INVALID
+      use std::str::FromStr;
+      use dmntk_feel::values::Value as V;
+      let text = std::fs::read_to_string(&args[2]).unwrap_or_default();
+      let mut out = String::new();
+      for line in text.lines() {
+        let l = line.to_string();
+        let r = std::panic::catch_unwind(move || {
+          let t: Vec<&str> = l.split_whitespace().collect();
+          match t.as_slice() {
+            ["N", x] => match FeelNumber::from_str(x) {
+              Ok(n) => { let d = n.to_string(); let j = dmntk_common::Jsonify::jsonify(&Value::Number(n)); let back = FeelNumber::from_str(&d).map(|m| m == n).unwrap_or(false); format!("{} | {} | {}", d, j, back) }
+              Err(_) => "INVALID".to_string(),
+            },
+            ["L", x] => { let scope = Scope::default(); match dmntk_feel_parser::parse_expression(&scope, x, false) { Ok(node) => match dmntk_feel_evaluator::prepare(&node) { Ok(ev) => match ev(&scope) { V::Number(n) => format!("{:?}", n), other => format!("NOT-A-NUMBER {}", other) }, Err(e) => format!("BUILD-ERROR {}", e) }, Err(e) => format!("PARSE-ERROR {}", e) } }
+            ["X", k, x] => { let r = match *k { "integer" => V::try_from_xsd_integer(x), "decimal" => V::try_from_xsd_decimal(x), _ => V::try_from_xsd_double(x) }; match r { Ok(V::Number(n)) => format!("{:?}", n), Ok(o) => format!("NOT-A-NUMBER {}", o), Err(_) => "INVALID".to_string() } }
+            _ => "?".to_string(),
+          }
+        }).unwrap_or("PANIC".to_string());
+        out.push_str(&format!("{} => {}\n", line.trim(), r));
+      }
+      print!("{}", out);
+    }
     Some("trees") => {
       // trees <file>: each line is a FEEL expression over the names a b c d x y (bound in the parsing scope, so that they
       // lex as single-word names); prints the Debug rendering of the parsed AstNode, or PARSE-ERROR.
